@@ -176,6 +176,12 @@ func (sc *scenario) run() (toks []string, timedOut bool) {
 		}
 		lg.add("OE")
 	})
+	// a panic raised by the implementation in a harness-owned call is logged as an observation
+	guard := func() {
+		if r := recover(); r != nil {
+			lg.add("PANIC")
+		}
+	}
 	var wg sync.WaitGroup
 	start := make(chan struct{})
 	for i := range sc.subs {
@@ -216,6 +222,7 @@ func (sc *scenario) run() (toks []string, timedOut bool) {
 		wg.Add(1)
 		go func() {
 			defer wg.Done()
+			defer guard()
 			<-start
 			for k := 0; k < pl.delay; k++ {
 				pc.hit()
@@ -263,6 +270,7 @@ func (sc *scenario) run() (toks []string, timedOut bool) {
 		wg.Add(1)
 		go func() {
 			defer wg.Done()
+			defer guard()
 			<-start
 			closer(k, sc.closers[k])
 		}()
@@ -270,11 +278,12 @@ func (sc *scenario) run() (toks []string, timedOut bool) {
 	close(start)
 	finished := make(chan struct{})
 	go func() {
+		defer close(finished)
+		defer guard()
 		wg.Wait()
 		// quiescence: every Run and every racing Close has returned; the final Close makes the
 		// log complete ("never ran" is decided) also for scenarios without a racing closer
 		closer(nC, closePlan{pre: false})
-		close(finished)
 	}()
 	select {
 	case <-finished:
@@ -302,7 +311,26 @@ func runTaskloop(c *Ctx) error {
 			return
 		}
 		var nErr, nOk, nCtx int
+		doneSeen, lateStart, ctxRan := false, false, false
+		cancelled := map[string]bool{}
 		for _, t := range toks {
+			// l.done is known to be closed once a preStop started or a Run returned ErrClosed;
+			// a task that starts afterwards was accepted by the send branch of a select whose
+			// <-l.done branch was ready too
+			if strings.HasPrefix(t, "PS") || strings.HasPrefix(t, "Rc") {
+				doneSeen = true
+			}
+			if strings.HasPrefix(t, "X") {
+				cancelled[t[1:]] = true
+			}
+			if strings.HasPrefix(t, "S") {
+				if doneSeen {
+					lateStart = true
+				}
+				if cancelled[t[1:]] {
+					ctxRan = true
+				}
+			}
 			switch {
 			case strings.HasPrefix(t, "Ro"):
 				nOk++
@@ -323,6 +351,12 @@ func runTaskloop(c *Ctx) error {
 		}
 		if nCtx > 0 {
 			c.Count("outcome:has-context-error")
+		}
+		if lateStart {
+			c.Count("outcome:task-started-after-done-was-closed")
+		}
+		if ctxRan {
+			c.Count("outcome:task-started-after-its-context-was-cancelled")
 		}
 		c.Count(fmt.Sprintf("log-length:%d0s", len(toks)/10))
 		c.Emit(sc.tag(), caseToks, toks, nErr > 0)
@@ -349,15 +383,19 @@ func runTaskloop(c *Ctx) error {
 		}
 		return nil
 	}
-	n, rounds := 20000, 2
+	n, rounds := 12000, 2
 	if c.Tier != "quick" {
 		n, rounds = 400000, 10
 	}
-	if err := runAPI(c, "", rounds); err != nil {
-		return err
-	}
+
 	for k := 0; k < n; k++ {
 		emit(c.Rng.Int63n(1 << 40))
+	}
+	if err := runAPI(c, "", rounds); err != nil {
+		// the live-agent environment could not be set up or driven: reported as a
+		// correspondence difference (the model side answers OK), never as a verdict by itself
+		c.Count("api:environment-failure")
+		c.Emit("apienv", []string{"apienv"}, []string{"ENVFAIL", Hex(err.Error())}, false)
 	}
 	return nil
 }
